@@ -178,22 +178,43 @@ def path_term(p):
 LAST_OPS = []
 
 
+class ParentLinkBroken(Exception):
+    pass
+
+
+TWINS = [0]
+
+
 def gen_sequence(rng, n_ops):
     from fandango.language.tree import DerivationTree
     pool, steps, ops_txt = [], [], []
     LAST_OPS.clear()
+    queue = []
     for _ in range(n_ops):
         kind = rng.choice(["new", "new", "add", "setkids", "sym", "snd", "rcp", "hash", "hash", "copy", "copywhole", "replace", "prefix", "copypruned"])
-        if not pool or (kind != "new" and len(pool) < 2 and kind in ("add", "setkids", "replace")):
-            kind = "new"
-        total = sum(t.size() for t in pool)
-        if total > 60 and kind in ("copy", "copywhole", "replace", "prefix", "new", "copypruned"):
-            kind = rng.choice(["sym", "snd", "hash", "setkids", "add"])
-            if len(pool) < 2 and kind in ("add", "setkids"):
-                kind = "sym"
+        forced = None
+        if queue:
+            kind, forced = queue.pop(0)
+        elif pool and rng.random() < 0.1 and sum(t.size() for t in pool) <= 60:
+            # structurally equal siblings: a root and its copy become the children of one new node, then prefix() at or below the LATER twin
+            free = [i for i, t in enumerate(pool) if t.parent is None]
+            if free:
+                r0 = rng.choice(free)
+                kind, forced = "copywhole", ("root", r0)
+                queue = [("new", ("kids", [r0, len(pool)])), ("prefix", ("twin", None))]
+        if forced is None:
+            if not pool or (kind != "new" and len(pool) < 2 and kind in ("add", "setkids", "replace")):
+                kind = "new"
+            total = sum(t.size() for t in pool)
+            if total > 60 and kind in ("copy", "copywhole", "replace", "prefix", "new", "copypruned"):
+                kind = rng.choice(["sym", "snd", "hash", "setkids", "add"])
+                if len(pool) < 2 and kind in ("add", "setkids"):
+                    kind = "sym"
         if kind == "new":
             s, a, b = rng.randint(0, 7), rng.choice([0, 0, 1, 2]), rng.choice([0, 0, 1])
             ks = rng.sample(range(len(pool)), rng.randint(0, min(3, len(pool)))) if s % 2 == 0 else []
+            if forced:
+                s, ks = 2 * rng.randint(0, 3), list(forced[1])
             t = DerivationTree(mk_symbol(s), [pool[i] for i in ks], sender=party(a), recipient=party(b))
             pool = remove_idx(pool, ks) + [t]
             op = f"ONew {coq_nat(s)} {coq_nat(a)} {coq_nat(b)} {coq_list([coq_nat(i) for i in ks])}"
@@ -242,7 +263,7 @@ def gen_sequence(rng, n_ops):
             free = [i for i, t in enumerate(pool) if t.parent is None]
             if not free:
                 continue
-            r = rng.choice(free)
+            r = forced[1] if forced else rng.choice(free)
             pool = pool + [copy.deepcopy(pool[r])]
             op = f"OCopyWhole {coq_nat(r)}"
         elif kind == "copypruned":
@@ -266,9 +287,18 @@ def gen_sequence(rng, n_ops):
             op = f"OReplace {coq_nat(r)} {path_term(p)} {coq_nat(r2)} {path_term(p2)}"
         else:  # prefix
             root, p, r = pick(rng, pool)
+            if forced:
+                r = len(pool) - 1
+                root = pool[r]
+                p = (1,) + tuple(rng.choice(paths(root.children[1])))
+                TWINS[0] += 1
             if not p or root.parent is not None:
                 continue
             res_ = node_at(root, p).prefix(copy_tree=True)
+            # the node handed back must be listed by the parent it points to, at the position it was taken from
+            if res_.parent is not None and not any(c is res_ for c in res_.parent.children):
+                raise ParentLinkBroken(f"node.prefix(copy_tree=True) at path {list(p)} of pool tree {r}: the returned node's parent does not list it "
+                                       f"(parent's children: {len(res_.parent.children)}, expected index {p[-1]})")
             pool = pool + [res_.get_root()]
             op = f"OPrefix {coq_nat(r)} {path_term(p)}"
         if rng.random() < 0.5:
@@ -288,6 +318,11 @@ def correspondence(res):
         sys.setrecursionlimit(3000)
         try:
             steps, ops_txt = gen_sequence(rng, rng.randint(3, 25))
+        except ParentLinkBroken as e:
+            if len(res.violations) < 3:
+                res.violation("after prefix(), a node's parent link points to a node that does not list it: " + str(e),
+                              {"ops_before (the failing prefix is the next op)": list(LAST_OPS), "seed": res.seed})
+            continue
         except (RecursionError, Exception) as e:
             import traceback
             tb = traceback.extract_tb(e.__traceback__)
@@ -303,12 +338,13 @@ def correspondence(res):
         res.count(tuple(ops_txt), nontrivial=len(ops_txt) >= 5 and len(kinds) >= 3)
         for k in kinds:
             res.bump(k)
+    res.hist["prefix_below_later_of_two_equal_siblings"] = TWINS[0]
     res.sample(infos[0])
     res.sample({"last_step_term": terms[0][-400:]})
     corr = common.run_case_codes("C10", "corr", HEADER, terms, "c10_corr", chunk=60, ctype=CT)
     prop = common.run_case_codes("C10", "prop", HEADER, terms, "c10_prop", chunk=60, ctype=CT)
     res.coverage["rule"] = ("random sequences of 3-25 public tree operations (construct, add_child, set_children, symbol/sender/recipient setters, "
-                            "hash, deepcopy with/without parent and with/without the node's children, replace, prefix) over a pool of real DerivationTree objects, with read-only accessors "
+                            "hash, deepcopy with/without parent and with/without the node's children, replace, prefix; about every tenth step starts a copy / new parent over the root and its copy / prefix below the later twin, so that positions among structurally EQUAL siblings matter) over a pool of real DerivationTree objects, with read-only accessors "
                             "(indexing, slicing, searches, flatten, equality, value) interleaved; after every step all reachable objects are dumped "
                             "(identity-canonical) and compared with the model, and the dumps are judged on their own (size/hash/parent consistency, "
                             "no aliasing, inputs of copying operations unchanged). non-trivial = >= 5 ops of >= 3 kinds; distinct by op sequence")
